@@ -276,3 +276,6 @@ def global_rules(sm, rep, tier):
 def finalize(sm, rep, tier, results):
     rep.floor('S2 row obligations', sum(1 for o in rep.obs if o['rule'] == 'S2'), 200)
     rep.floor('term builders checked for interior-only rows', len({o['construct'] for o in rep.obs if o['rule'] == 'S6'}), 40)
+    # positive control: the row comparison of S2 separates "added once" from "added twice" / "subtracted"
+    m_, t_ = Rat.atom(('ctl', 'Mbc')), Rat.atom(('ctl', 'term'))
+    rep.control('S2 separates M+T from M+2T and M-T', is_zero((m_ + t_) - (m_ + t_)) and not is_zero((m_ + 2 * t_) - (m_ + t_)) and not is_zero((m_ - t_) - (m_ + t_)))
